@@ -59,6 +59,7 @@ type world struct {
 	set    *forge.Set
 	mgr    *stubMgr
 	db     *youdb.MemDatabase
+	kdb    *killDB // the voter's view of db: can kill the process right before its n-th write operation
 	voter  *ucon.Voter
 	me     *forge.Member
 	life   int
@@ -72,6 +73,37 @@ type world struct {
 	seenVotes int
 	T         uint64
 }
+
+// killDB passes everything through to the memory database; when armed it "kills the process"
+// (panics with the crash sentinel) right BEFORE the n-th write operation issued from now on, so
+// every earlier write of the same call is on disk and this one and all later ones are not.
+type killDB struct {
+	*youdb.MemDatabase
+	arm  int
+	hits int
+	log  *[]string
+}
+
+func (k *killDB) tick(what string) {
+	if k.arm > 0 {
+		k.arm--
+		if k.arm == 0 {
+			k.hits++
+			*k.log = append(*k.log, "  CRASH right before database write: "+what)
+			panic(crashSentinel{"db-write"})
+		}
+	}
+}
+func (k *killDB) Put(key, val []byte) error { k.tick("put"); return k.MemDatabase.Put(key, val) }
+func (k *killDB) Delete(key []byte) error   { k.tick("delete"); return k.MemDatabase.Delete(key) }
+func (k *killDB) NewBatch() youdb.Batch      { return &killBatch{Batch: k.MemDatabase.NewBatch(), k: k} }
+
+type killBatch struct {
+	youdb.Batch
+	k *killDB
+}
+
+func (b *killBatch) Write() error { b.k.tick("batch"); return b.Batch.Write() }
 
 func (w *world) coin(parts ...interface{}) uint64 {
 	h := sha256.Sum256([]byte(fmt.Sprint(append([]interface{}{w.salt}, parts...)...)))
@@ -110,7 +142,11 @@ func (w *world) newVoter() {
 		return uint64(len(w.set.Members))
 	}
 	verifySort := func(pub *ecdsa.PublicKey, d *ucon.SortitionData, lb params.LookBackType) error { return nil }
-	w.voter = ucon.NewVoter(w.db, w.me.Key, w.me.Bls, mux, verifySort, isValidator, maxPrio, blockInCache, getStake, count, w.mgr)
+	if w.kdb == nil {
+		w.kdb = &killDB{MemDatabase: w.db, log: &w.log}
+	}
+	w.kdb.arm = 0
+	w.voter = ucon.NewVoter(w.kdb, w.me.Key, w.me.Bls, mux, verifySort, isValidator, maxPrio, blockInCache, getStake, count, w.mgr)
 	w.voter.SetLookBackMgr(w.mgr)
 }
 
@@ -194,11 +230,16 @@ func history(c *kit.Ctx, id string, i int) {
 	drive := func(desc string, f func()) {
 		w.log = append(w.log, desc)
 		w.crashAt = 0
+		w.kdb.arm = 0
 		if r.Intn(6) == 0 && restarts < 3 {
 			w.crashAt = 1 + r.Intn(2)
 			w.crashPost = r.Intn(2) == 0
+		} else if r.Intn(7) == 0 && restarts < 3 {
+			// kill at database-write granularity: before the 1st..4th write of this driver call
+			w.kdb.arm = 1 + r.Intn(4)
 		}
 		g := kit.Guard(f)
+		w.kdb.arm = 0
 		if g != nil {
 			if _, ok := g.(crashSentinel); !ok {
 				panic(g) // a real panic of the code under test: let the process die on this case
@@ -322,6 +363,7 @@ func history(c *kit.Ctx, id string, i int) {
 	}
 	c.Count("votes_emitted", len(w.ledger))
 	c.Count("restarts", restarts)
+	c.Count("crashes_before_a_database_write", w.kdb.hits)
 	c.Count("events", nev)
 	if cert {
 		c.Count("cert_round_histories", 1)
